@@ -377,6 +377,7 @@ def _imports(ctx):
     from props.common import import_rules
 
     import_rules(ctx, "C05", {"C05.a", "C05.b", "C05.c", "C05.d", "C05.e"}, "C04.g", "imported from C05 (AtomicBucket<f64> is the standard histogram storage behind Histogram::record): slot claim/publish protocol, wait-before-read, link-before-publish, claims fenced before a detached block is read — otherwise a recorded value is delivered zero times", floor=10)
+    import_rules(ctx, "C16", {"C16.b"}, "C04.i", "imported from C16 (AtomicSamplingReservoir is the HistogramFn storage of a sampled histogram): the two halves are swapped and the previous one drained and reset to empty under the swap mutex — otherwise a recorded value is delivered in two flushes, or wiped before any flush reads it", floor=3)
     import_rules(ctx, "C10", {"C10.a"}, "C04.h", "imported from C10 (the DogStatsD recorder's CounterFn/GaugeFn storage, a sibling implementation behind the same handles): updates are single atomic read-modify-write operations whose retry closure always yields a value — otherwise an update through a handle is lost or panics", floor=3)
 
 
